@@ -56,3 +56,43 @@ def impl(fname, args):
             return [s(st.year_range), s(st.holder), st.dumps()]
         return call(f, *args)
     raise KeyError(fname)
+
+
+def _snap(c):
+    return repr(([type(p).__name__ for p in c.paragraphs], c.to_dict(with_lines=True), c.dumps(),
+                 [sorted((k, tuple(v)) for k, v in p.line_numbers_by_field.items()) for p in c.paragraphs]))
+
+
+def p_observe(t):
+    """looking at a copyright object - validity, rendering, dictionary form, copies, comparisons, per-paragraph
+    queries, in any order, and whatever the caller does with what is returned - leaves the object as it was built"""
+    import copy
+    try:
+        c = dc.DebianCopyright.from_text(t)
+        snap = _snap(c)
+        looks = [('is_valid()', lambda: c.is_valid()), ('is_valid(strict=True)', lambda: c.is_valid(strict=True)),
+                 ('dumps()', lambda: c.dumps()), ('to_dict() then clearing the result', lambda: [x.clear() for x in c.to_dict()['paragraphs']]),
+                 ('to_dict(with_lines=True) then clearing the result', lambda: c.to_dict(with_lines=True).clear()),
+                 ('repr/str', lambda: (repr(c), str(c))), ('deepcopy', lambda: copy.deepcopy(c).paragraphs.clear()),
+                 ('copy of the paragraph list reversed', lambda: list(c.paragraphs).reverse()),
+                 ('comparison', lambda: (c == c, c == copy.deepcopy(c), c != 1)),
+                 ('per-paragraph queries', lambda: [(p.is_empty(), p.has_extra_data(), p.dumps(), p.to_dict().clear(), p.to_dict(with_lines=True),
+                                                    p.get_first_last_line_numbers(), [p.get_field_line_numbers(n) for n in list(p.line_numbers_by_field)],
+                                                    p.is_valid() if hasattr(p, 'is_valid') else None, p.is_valid(strict=True) if hasattr(p, 'is_valid') else None,
+                                                    repr(p), p == copy.deepcopy(p)) for p in c.paragraphs]),
+                 ('get_paragraphs_by_type', lambda: [getattr(c, n)() for n in dir(c) if n.startswith('get_') and n.endswith('paragraphs')])]
+        for name, look in looks + looks[::-1]:
+            try:
+                look()
+            except Exception as e:  # noqa
+                if name in ('is_valid()', 'is_valid(strict=True)', 'dumps()'):
+                    return '%s raises %s' % (name, type(e).__name__)
+            now = _snap(c)
+            if now != snap:
+                return 'after %s the object reports %s, as built it reported %s' % (name, now[:600], snap[:600])
+        c2 = dc.DebianCopyright.from_text(t)
+        if _snap(c2) != snap:
+            return 'a second object built from the same text differs from the first'
+    except Exception as e:  # noqa
+        return 'raises %s' % type(e).__name__
+    return None
